@@ -243,6 +243,21 @@ W11_DOCS = [
 ]
 
 
+# identity constraints whose fields have date / duration / numeric types: field values are evaluated by the XPath
+# machinery, which has its own limits
+KD_XSD = ('<xs:schema xmlns:xs="http://www.w3.org/2001/XMLSchema"><xs:element name="r"><xs:complexType><xs:sequence>'
+          '<xs:element name="v" maxOccurs="unbounded"><xs:complexType><xs:simpleContent><xs:extension base="xs:dateTime">'
+          '<xs:attribute name="d" type="xs:date"/><xs:attribute name="u" type="xs:duration"/><xs:attribute name="n" '
+          'type="xs:decimal"/><xs:attribute name="g" type="xs:gYear"/></xs:extension></xs:simpleContent></xs:complexType>'
+          '</xs:element></xs:sequence></xs:complexType><xs:key name="K"><xs:selector xpath="v"/><xs:field xpath="@d"/></xs:key>'
+          '<xs:unique name="U"><xs:selector xpath="v"/><xs:field xpath="@u"/><xs:field xpath="@n"/></xs:unique>'
+          '<xs:unique name="G"><xs:selector xpath="v"/><xs:field xpath="@g"/></xs:unique>'
+          '<xs:unique name="T"><xs:selector xpath="v"/><xs:field xpath="."/></xs:unique></xs:element></xs:schema>')
+KD_DOCS = ['<r><v d="2000-01-01" u="P1Y" n="1.0" g="2000">2000-01-01T00:00:00</v><v d="2000-01-02" u="P1Y" n="2">2001-01-01T00:00:00Z</v></r>',
+           '<r><v d="99999999999999999999-01-01" u="P99999999999999999999Y" n="1e5" g="99999999999">99999999999-01-01T00:00:00</v></r>',
+           '<r><v d="2000-01-01" g="-0001"/><v d="2000-01-01" g="0000"/></r>']
+
+
 def schema_pool():
     global _POOLS
     if _POOLS is None:
@@ -250,6 +265,7 @@ def schema_pool():
         for label, cls, src, docs in c10.pools(random.Random(11)):
             _POOLS.append((label, cls(src), [d.encode('utf-8') for d in docs]))
         _POOLS.append(('W11:negative wildcards', xmlschema.XMLSchema11(W11_XSD), [d.encode('utf-8') for d in W11_DOCS]))
+        _POOLS.append(('KD:typed identity fields', xmlschema.XMLSchema10(KD_XSD), [d.encode('utf-8') for d in KD_DOCS]))
     return _POOLS
 
 
@@ -396,7 +412,7 @@ def judge_open_iterations(st):
 
 
 def shards(tier, seed):
-    out = [('mut', p, k, tier, seed) for p in range(8) for k in range(2)] + [('limits',), ('deep',), ('typed',), ('open',)]
+    out = [('mut', p, k, tier, seed) for p in range(9) for k in range(2)] + [('limits',), ('deep',), ('typed',), ('open',)]
     if tier == 'thorough':
         out += [('atheris', k, seed) for k in range(3)]
     return out
